@@ -133,6 +133,12 @@ var pool = sync.Pool{
 // Log writes a log line for the request that was executed
 // between t1 and t2.
 func (l *logger) Log(e *Event) {
+	// the time fields are documented (and labelled 'Z' / '+0000') as UTC
+	if e.End.Location() != time.UTC {
+		utc := *e
+		utc.End = e.End.UTC()
+		e = &utc
+	}
 	b := pool.Get().(*bytes.Buffer)
 	b.Reset()
 	l.p.write(b, e)
